@@ -55,6 +55,16 @@ finally:
     sh("git clean -fdq src", cwd="/repo")
     shutil.rmtree("/verif/evidence", ignore_errors=True)
     shutil.copytree(EV_BAK, "/verif/evidence")
+# a run over a subset of the checks keeps what the other checks reported in the previous round (marked with that round)
+_prev_path = os.path.join(DST, "meta.json")
+if os.path.exists(_prev_path) and len(props) < len(manifest["checks"]):
+    try:
+        _pm = json.load(open(_prev_path))
+        for _p, _r in (_pm.get("results") or {}).items():
+            if _p not in results:
+                _r.setdefault("from_round", _pm.get("round", "earlier round")); results[_p] = _r
+    except Exception:
+        pass
 caught_by = sorted(p for p, r in results.items() if r["exit"] != 0)
 with_input = sorted(p for p, r in results.items() if any(v["kind"] == "oracle" for v in r["violations"]))
 prop = json.load(open(f"/tmp/mut/{ID}-out/property.json"))
